@@ -71,6 +71,12 @@ def _programs(tier):
   P.append(dict(model="grouped_convs", limit=lim_pattern, layer_indexes=None, tune_filters="none"))
   P.append(dict(model="grouped_convs", limit={"^conv_a": [[ "binary", "quantized_bits(4,0,1)"], 8, 6], "Dense": [4, 4, 4]},
                 layer_indexes=None, tune_filters="none"))
+  # overlapping name patterns: the FIRST matching key of the limit dictionary applies (the scheduler's get_limit and the
+  # repository's own examples list the specific entry before the generic one); the later key is the more permissive one
+  P.append(dict(model="grouped_convs", limit={"^conv_a_1$": [2, 4, 3], "^conv_": [8, 8, 6], "Dense": [4, 4, 4]},
+                layer_indexes=None, tune_filters="none"))
+  P.append(dict(model="grouped_convs", limit={"^conv_b$": [1, 4, 3], "^conv_a": [4, 4, 3], ".*": [8, 8, 8]},
+                layer_indexes=None, tune_filters="none"))
   P.append(dict(model="rnn_dense", limit={"SimpleRNN": [4, 4, 2, 6], "Dense": [4, 4, 4]}, layer_indexes=None, tune_filters="none"))
   P.append(dict(model="lstm_dense", limit={"LSTM": [8, 4, 2, 3], "Dense": [4, 4, 4]}, layer_indexes=None, tune_filters="none"))
   P.append(dict(model="sep_dense", limit={"SeparableConv2D": [8, 4, 3], "Dense": [4, 4, 4]}, layer_indexes=None, tune_filters="none"))
@@ -95,6 +101,13 @@ def enumerate_cases(tier, seed):
     for bq in (None, "quantized_bits(6,2,1)"):
       for act in (None, "quantized_relu(3,1)", "relu", "softmax"):
         out.append(dict(sub="c", kq=kq, bq=bq, act=act))
+  # the same size model on a target with a HISTORY: the reference model is measured first (as the hyper-model's constructor
+  # does), then trials of other widths whose unquantized layers carry the reference layers' names; every trial is measured
+  # twice in two orders - the size of a model is a function of the model alone
+  for kq in (None, "quantized_bits(4,0,1)"):
+    for widths in ((2, 6), (6, 2), (3, 3)):
+      for act in ("relu", "softmax"):
+        out.append(dict(sub="c", hist=True, kq=kq, bq=None, act=act, widths=list(widths)))
   for dp in (1, 8, 50):
     for dn in (1, 8, 50):
       for rate in (1.5, 2.0, 4.0):
@@ -446,7 +459,114 @@ def run_b(case):
           "sample": {"sub": "b", "params": case, "size_pairs": evals}}
 
 
+def _ref_layer_size(ql):
+  """(parameter bits, activation bits) of one layer, ref/input/output bits all 8: elements x applied bits."""
+  c = ql.__class__.__name__
+  out_elems = int(np.prod(ql.output.shape[1:]))
+  if c == "InputLayer":
+    return 0, 8 * out_elems
+  if c in ("Dense", "Conv2D"):
+    p = sum(8 * int(np.prod(w.shape)) for w in ql.get_weights())
+    nm = getattr(ql.activation, "__name__", "linear")
+    return p, (0 if nm == "linear" else 8 * out_elems)
+  if c == "Activation":
+    nm = getattr(ql.activation, "__name__", "")
+    return 0, (0 if nm == "linear" else 8 * out_elems)
+  if c in ("QDense", "QConv2D"):
+    p = 0
+    for q, w in zip(ql.get_quantizers(), ql.get_weights()):
+      p += (q.bits if q is not None else 8) * int(np.prod(w.shape))
+    act = ql.activation
+    nm = getattr(act, "__name__", "")
+    if act is None or nm == "linear":
+      a = 0
+    elif nm == "softmax":
+      a = 8 * out_elems
+    else:
+      a = (act.bits if hasattr(act, "bits") else 8) * out_elems
+    return p, a
+  return 0, 0
+
+
+def run_c_hist(case):
+  tf = common.tf_init()
+  import qkeras  # pylint: disable=import-outside-toplevel
+  from qkeras.autoqkeras.forgiving_metrics import ForgivingFactorBits  # pylint: disable=import-outside-toplevel
+  L = tf.keras.layers
+  viol = []
+
+  def build(width, quantized):
+    inp = L.Input((4,), name="inp")
+    if quantized:
+      x = qkeras.QDense(width, kernel_quantizer=case["kq"], bias_quantizer=case["bq"], name="d0")(inp)
+    else:
+      x = L.Dense(width, name="d0")(inp)
+    x = L.Activation(case["act"], name="a0")(x)           # stays unquantized in every trial
+    x = L.Dense(3, activation="relu", name="d1")(x)        # stays unquantized; its kernel follows the width
+    x = qkeras.QDense(2, kernel_quantizer="quantized_bits(4,0,1)", bias_quantizer="quantized_bits(4,0,1)", name="d2")(x) \
+        if quantized else L.Dense(2, name="d2")(x)
+    return tf.keras.Model(inp, x)
+
+  def want(m):
+    d = {}
+    for ql in m.layers:
+      p, a = _ref_layer_size(ql)
+      d[ql.name] = (p, a)
+    return d
+
+  t = ForgivingFactorBits(8, 8, 2, input_bits=8, output_bits=8, ref_bits=8, config={"default": ["parameters", "activations"]})
+  ref = build(4, False)
+  refsize = t.get_reference(ref)
+  evals = 1
+  wref = want(ref)
+  if refsize != sum(p + a for p, a in wref.values()):
+    viol.append({"key": "size-model:reference", "what": "reference size %r != sum of elements x 8 bits = %r (stress 1)" % (
+        refsize, sum(p + a for p, a in wref.values())), "detail": {"case": case}})
+  sizes = {}
+  for order in (case["widths"], case["widths"][::-1]):
+    for w in order:
+      m = build(w, True)
+      got_total = t.get_trial(m)
+      wd = want(m)
+      evals += 1
+      for name, (p, a) in wd.items():
+        g = t.trial_size_dict.get(name)
+        evals += 2
+        if g is None:
+          if p + a:
+            viol.append({"key": "size-model:history:missing", "what": "layer %s of the width-%d trial is missing from the size report" % (name, w),
+                         "detail": {"case": case}})
+          continue
+        if int(g["parameters"]) != p or int(g["activations"]) != a:
+          viol.append({"key": "size-model:history:" + m.get_layer(name).__class__.__name__,
+                       "what": "after the reference (width 4) was measured, layer %s (%s) of the width-%d trial is counted as %r/%r "
+                               "parameter/activation bits; elements x applied bits gives %r/%r" % (
+                                   name, m.get_layer(name).__class__.__name__, w, int(g["parameters"]), int(g["activations"]), p, a),
+                       "detail": {"case": case}})
+          break
+      tot = sum(p + a for p, a in wd.values())
+      if int(got_total) != tot and not viol:
+        viol.append({"key": "size-model:history:total", "what": "width-%d trial size %r != sum of layer sizes %r" % (w, got_total, tot),
+                     "detail": {"case": case}})
+      sizes.setdefault(w, set()).add(int(got_total))
+      d = t.delta()
+      evals += 1
+      # smaller than the (stressed) reference <=> positive bonus
+      if (tot < refsize and not d > 0) or (tot > refsize and not d < 0):
+        viol.append({"key": "size-model:history:delta-sign", "what": "trial of size %r against reference %r has delta %r" % (tot, refsize, d),
+                     "detail": {"case": case}})
+  for w, ss in sizes.items():
+    if len(ss) != 1 and not viol:
+      viol.append({"key": "size-model:history:order", "what": "width-%d trial measured as %r depending on the order of measurements" % (w, sorted(ss)),
+                   "detail": {"case": case}})
+  return {"evals": evals, "transitions": 5, "nontrivial": 1,
+          "state": "c:%r" % sorted((k, repr(v)) for k, v in case.items()), "digest": common.digest(repr(sorted(sizes.items()))),
+          "violations": viol[:4], "traces": 0, "sample": {"sub": "c", "case": case, "sizes": {str(k): sorted(v) for k, v in sizes.items()}}}
+
+
 def run_c(case):
+  if case.get("hist"):
+    return run_c_hist(case)
   tf = common.tf_init()
   import qkeras  # pylint: disable=import-outside-toplevel
   from qkeras.autoqkeras.forgiving_metrics import ForgivingFactorBits  # pylint: disable=import-outside-toplevel
